@@ -50,6 +50,9 @@ var (
 	cMarshalArena = simrt.RegisterCounter("op_marshal_and_mic_on_frames_over_the_arena")
 	cOtherCID     = simrt.RegisterCounter("op_reuse_decode_command_then_another_cid")
 	cDuplicate    = simrt.RegisterCounter("op_same_bytes_decoded_twice_for_two_workers")
+	cErrKept      = simrt.RegisterCounter("probe_kept_error_values_read_again_later")
+	cBadText      = simrt.RegisterCounter("op_decode_of_text_that_is_not_a_frame")
+	cCrowd        = simrt.RegisterCounter("op_crowd_of_dozens_of_sessions_at_once")
 	cCandidate    = simrt.RegisterCounter("op_second_counter_candidate_on_the_owners_frame")
 	cRegEdge      = simrt.RegisterCounter("op_registration_size_0_or_refused_cid")
 	cJoinReadonly = simrt.RegisterCounter("op_join_family_validate_marshal_readonly")
@@ -129,7 +132,14 @@ type obs struct {
 	redo func() string
 }
 
+// keptErr is an error a task was handed, with the text it had at that moment.
+type keptErr struct {
+	err  error
+	text string
+}
+
 type world struct {
+	errs     [simrt.MaxTasks][]keptErr
 	obs      [simrt.MaxTasks][]obs
 	nWorkers int
 	boxes    []*sim.Mailbox
@@ -188,6 +198,10 @@ func build(w *sim.World) {
 	wd := &world{}
 	theWD = wd
 	w.Finish = append(w.Finish, wd.settle)
+	if simrt.Choose(30) == 1 {
+		buildCrowd(w, wd)
+		return
+	}
 	wd.nWorkers = 2 + simrt.Choose(3)
 	nPackets := 4 + simrt.Choose(28*sim.Scale)
 	nRegs := simrt.Choose(5)
@@ -210,6 +224,68 @@ func build(w *sim.World) {
 		os := simrt.Raw()
 		w.Spawn(fmt.Sprintf("operator%d", k), func() { operator(nRegs, os) })
 	}
+}
+
+// buildCrowd: a wide run instead of a deep one - three to five dozen tasks,
+// each with a session (keys, device address) of its own, each sealing,
+// validating and opening its own frames at the same time as all the others:
+// "concurrent MIC/crypto operations on distinct values" at a width at which
+// anything the library keeps per key or per call (a cache of cipher or CMAC
+// states, a pool of scratch buffers, a bounded table) is full. Every outcome
+// is repeated alone after the run (interference), the race detector watches.
+func buildCrowd(w *sim.World, wd *world) {
+	n := 34 + simrt.Choose(24)
+	w.Notef("W-ISO (crowd): %d tasks with their own sessions", n)
+	simrt.Count(cCrowd)
+	for i := 0; i < n; i++ {
+		i := i
+		sub := simrt.Raw()
+		w.Spawn(fmt.Sprintf("session%d", i), func() { crowdTask(wd, i, sub) })
+	}
+}
+
+func crowdTask(wd *world, id int, sub uint64) {
+	r := sim.NewRand(sub)
+	s := pipe.NewSession(r, r.Intn(2) == 0)
+	s.DevAddr[2], s.DevAddr[3] = byte(id>>8), byte(id)
+	fcnt := uint32(r.Intn(1 << 20))
+	g := spec.CmdGen{}
+	for k, n := 0, 2+r.Intn(3); k < n; k++ {
+		if simrt.Dead() {
+			return
+		}
+		sim.Op()
+		fcnt++
+		up := r.Intn(2) == 0
+		g.Up = up
+		f := spec.GenFrame(r, up, s.DevAddr, fcnt, g, 60)
+		if f.HasPort && f.FPort == 0 && len(f.FRMCmds) == 0 {
+			f.HasPort = false
+		}
+		tx := pipe.TxParams{ConfFCnt: uint32(r.Intn(1 << 17)), TxDR: uint8(r.Intn(16)), TxCh: uint8(r.Intn(72))}
+		wire, stage, err := pipe.Seal(&s, f.ToLib(), tx)
+		if err != nil {
+			functional("seal:" + stage)
+			continue
+		}
+		simrt.Count(cWork)
+		fc, sess := fcnt, s
+		run := func() string {
+			var p lorawan.PHYPayload
+			if err := p.UnmarshalBinary(append([]byte(nil), wire...)); err != nil {
+				return "undecodable"
+			}
+			ok, verr := pipe.Validate(&sess, &p, fc, tx)
+			st, oerr := pipe.Open(&sess, &p)
+			return fmt.Sprint(ok, verr == nil, st, oerr == nil, frameSig(&p))
+		}
+		var got string
+		if sim.Guard("panic", func() { got = run() }) {
+			continue
+		}
+		wd.observe("validate+decrypt of a session's own frame (crowd)", got, run)
+	}
+	simrt.Count(cNontrivial)
 }
 
 func operator(n int, sub uint64) {
@@ -257,6 +333,9 @@ func receiver(wd *world, n int, sub uint64) {
 			break
 		}
 		sim.Op()
+		if r.Intn(4) == 0 {
+			wd.recheckErrs()
+		}
 		if wd.nWorkers > 1 && r.Intn(8) == 0 {
 			sendSharedBytes(wd, r)
 			continue
@@ -339,6 +418,7 @@ func receiver(wd *world, n int, sub uint64) {
 		}
 		if derr != nil {
 			functional("unmarshal")
+			wd.keepErr(derr)
 			continue
 		}
 		if !bytes.Equal(target, payload) {
@@ -607,8 +687,68 @@ func worker(wd *world, id int, sub uint64, extra int) {
 	}
 }
 
+// keepErr: an error the library returned is a value the caller may log later;
+// what it says must not depend on what the library does in between.
+func (wd *world) keepErr(err error) {
+	t := simrt.Current()
+	if err == nil || t < 0 || t >= simrt.MaxTasks || len(wd.errs[t]) >= 6 {
+		return
+	}
+	var text string
+	if sim.Guard("panic", func() { text = err.Error() }) {
+		return
+	}
+	wd.errs[t] = append(wd.errs[t], keptErr{err, text})
+}
+
+func (wd *world) recheckErrs() {
+	t := simrt.Current()
+	if t < 0 || t >= simrt.MaxTasks {
+		return
+	}
+	for _, k := range wd.errs[t] {
+		var now string
+		if sim.Guard("panic", func() { now = k.err.Error() }) {
+			continue
+		}
+		simrt.Count(cErrKept)
+		if now != k.text {
+			simrt.Report("alias.error-value", fmt.Sprintf("an error the library returned said %q when it was returned and says %q now, after later calls on other values", k.text, now))
+		}
+	}
+	wd.errs[t] = wd.errs[t][:0]
+}
+
+// badText: decode of text that is valid base64 but not a frame (a truncated
+// or foreign packet); the caller keeps the error for its log.
+func badText(wd *world, r *sim.Rand) {
+	n := 1 + r.Intn(8)
+	if r.Intn(3) == 0 {
+		n = 13 + r.Intn(40)
+	}
+	raw := r.Bytes(n)
+	if n > 12 {
+		raw[0] = byte(0x40 | r.Intn(0x80)) // a data frame that is cut short somewhere
+		raw[5] |= 0x0f                     // FOptsLen 15: longer than what follows, most of the time
+	}
+	text := []byte(base64.StdEncoding.EncodeToString(raw))
+	var p lorawan.PHYPayload
+	var err error
+	if sim.Guard("panic", func() { err = p.UnmarshalText(text) }) {
+		return
+	}
+	simrt.Count(cBadText)
+	wd.keepErr(err)
+}
+
 func localOp(wd *world, id int, r *sim.Rand, bw *bandWatch) {
 	sim.Op()
+	if r.Intn(4) == 0 {
+		badText(wd, r)
+	}
+	if r.Intn(3) == 0 {
+		wd.recheckErrs()
+	}
 	switch r.Intn(5) {
 	case 4:
 		marshalOnArena(wd, id, r)
@@ -1174,10 +1314,15 @@ func observeBand(b band.Band) string {
 		s += sim.DeepSig(cf)
 	}
 	s += fmt.Sprint(b.GetLinkADRReqPayloadsForEnabledUplinkChannelIndices([]int{0, 1, 2}))
+	// (what a device with channels 0 and 1 ends up with after a request that
+	// leaves only channel 0 of the first block on)
+	got, err := b.GetEnabledUplinkChannelIndicesForLinkADRReqPayloads([]int{0, 1}, []lorawan.LinkADRReqPayload{{ChMask: lorawan.ChMask{true}}})
+	s += fmt.Sprint(got, err)
 	simrt.Count(cBandObs)
 	return s
 }
 
+var cBandRefused = simrt.RegisterCounter("op_linkadr_request_the_band_refuses")
 var cBandScribble = simrt.RegisterCounter("fault_owner_edits_band_results_it_was_handed")
 
 func ownerWriteIdx(s []int, r *sim.Rand) {
@@ -1207,6 +1352,13 @@ func (bw *bandWatch) step(r *sim.Rand) {
 	}
 	simrt.Count(cBandOps)
 	n := len(bw.mine.GetUplinkChannelIndices())
+	if r.Intn(5) == 0 {
+		// a request the band must refuse (it names a channel the plan does not
+		// have): the error path of the owner's instance
+		simrt.Count(cBandRefused)
+		bad := lorawan.LinkADRReqPayload{ChMask: lorawan.ChMask{true, true, true, false, false, false, false, false, false, false, false, false, false, false, true, true}, Redundancy: lorawan.Redundancy{ChMaskCntl: uint8(r.Intn(6))}}
+		sim.Guard("panic", func() { bw.mine.GetEnabledUplinkChannelIndicesForLinkADRReqPayloads([]int{0, 1, 2}, []lorawan.LinkADRReqPayload{bad}) })
+	}
 	switch r.Intn(4) {
 	case 3:
 		// the owner of one instance edits results it was handed (sorts, filters
